@@ -500,17 +500,51 @@ func caseMarks(m *monitor, r *core.Rand) string {
 
 func caseValueSet(m *monitor, r *core.Rand) string {
 	ety := gen.Type(r, 1+r.Intn(2), tyOptsPlain).Cty()
+	// A ValueSet is the one place where the caller hands members to a set one at a time. Members a set cannot hold
+	// (marked at the outermost level, marked further down) are offered as well: Add / Has / Remove may refuse them
+	// (they panic, which is counted and not judged) but what the set hands out afterwards must still be a proper set.
+	markedPct := 0
+	if r.Chance(1, 3) {
+		markedPct = 25
+	}
 	mk := func() (cty.ValueSet, string) {
 		s := cty.NewValueSet(ety)
 		text := ""
 		for k, n := 0, r.Intn(6); k < n; k++ {
 			e := gen.Value(r, ety, gen.ValueOpts{MaxLen: 2, SmallNums: true, NullPct: 8, UnknownPct: 5})
-			if r.Chance(1, 6) {
-				m.call("ValueSet.Remove", func() { s.Remove(e) })
-				text += "-" + gs(e)
-			} else {
-				m.call("ValueSet.Add", func() { s.Add(e) })
-				text += "+" + gs(e)
+			cls := ""
+			if r.Intn(100) < markedPct {
+				switch r.Intn(3) {
+				case 0:
+					e, cls = e.Mark(gen.Marks[r.Intn(3)]), "member marked at its outermost level"
+				case 1:
+					e, cls = gen.MarkSome(r, e, 0, 60), "member possibly marked below its outermost level"
+				default:
+					e, cls = gen.MarkSome(r, e, 50, 40), "member possibly marked at any level"
+				}
+			}
+			site, sign := "ValueSet.Add", "+"
+			var f func()
+			switch x := r.Intn(12); {
+			case x < 2:
+				site, sign, f = "ValueSet.Remove", "-", func() { s.Remove(e) }
+			case x < 4:
+				site, sign, f = "ValueSet.Has", "?", func() { _ = s.Has(e) }
+			default:
+				f = func() { s.Add(e) }
+				if r.Chance(1, 4) {
+					f = func() { s.Add(e); s.Add(e) } // the same member twice is one member
+				}
+			}
+			text += sign + gs(e)
+			if m.call(site, f) && cls != "" && e.ContainsMarked() {
+				// the set took a member it cannot hold as it is: look at what it holds now
+				m.c.Count("valueset:" + site + " accepted a " + cls)
+				var sv cty.Value
+				here := text
+				if m.call("cty.SetValFromValueSet", func() { sv = cty.SetValFromValueSet(s) }) {
+					m.see(site, cls, sv, func() string { return fmt.Sprintf("NewValueSet(%#v) %s", ety, here) })
+				}
 			}
 		}
 		return s, text
@@ -522,7 +556,17 @@ func caseValueSet(m *monitor, r *core.Rand) string {
 	if m.call("cty.SetValFromValueSet", func() { v = cty.SetValFromValueSet(a) }) {
 		m.see("cty.SetValFromValueSet", "", v, wit)
 	}
-	m.call("ValueSet.Values", func() { m.seeAll("ValueSet.Values", "", a.Values(), wit) })
+	m.call("ValueSet.Values", func() {
+		vals := a.Values()
+		m.seeAll("ValueSet.Values", "", vals, wit)
+		for _, x := range vals {
+			if x.ContainsMarked() {
+				m.c.Count("ill-formed(public):set holds a marked member")
+				m.c.Violate("ValueSet.Values", "set holds a marked member", "", wit(), "Values() hands out the member "+gs(x))
+				break
+			}
+		}
+	})
 	for _, op := range []struct {
 		name string
 		f    func() cty.ValueSet
@@ -543,6 +587,36 @@ func caseValueSet(m *monitor, r *core.Rand) string {
 		var back cty.Value
 		if m.call("Value.AsValueSet", func() { back = cty.SetValFromValueSet(v.AsValueSet()) }) {
 			m.see("Value.AsValueSet", "", back, wit)
+		}
+	}
+	// AsValueSet of a list or map (it adds the members one by one), also one whose members are marked
+	if r.Chance(1, 3) {
+		var es []cty.Value
+		for k, n := 0, 1+r.Intn(3); k < n; k++ {
+			e := gen.Value(r, ety, gen.ValueOpts{MaxLen: 2, SmallNums: true, NullPct: 8, UnknownPct: 5})
+			if r.Chance(1, 3) {
+				e = gen.MarkSome(r, e, 60, 30)
+			}
+			es = append(es, e)
+		}
+		var coll, back cty.Value
+		ctor := "cty.ListVal"
+		if m.call(ctor, func() {
+			if r.Bool() {
+				coll = cty.ListVal(es)
+			} else {
+				ctor = "cty.MapVal"
+				mm := map[string]cty.Value{}
+				for i, e := range es {
+					mm[[]string{"a", "b", "k"}[i%3]] = e
+				}
+				coll = cty.MapVal(mm)
+			}
+		}) {
+			w2 := func() string { return "AsValueSet of " + gs(coll) }
+			if m.call("Value.AsValueSet", func() { back = cty.SetValFromValueSet(coll.AsValueSet()) }) {
+				m.see("Value.AsValueSet", "of a list or map", back, w2)
+			}
 		}
 	}
 	return "valueset " + wit()
